@@ -622,6 +622,38 @@ example : ceilInt (fdiv (fadd (fmul (ofInt 2) (lit 1 1)) (lit 1 1)) (lit 1 1)) =
   decide +kernel
 example : occupation_tlist_count 2 (lit 1 1) = 3 ∧ (0 : Rat) < lit 1 1 := by decide +kernel
 
+/-- what `correlation()` must add to the kernel sum for the initial state of the bath mode:
+    (number of thermal terms `n_th(freq_1)`, number of vacuum terms `+1`) -/
+def initialSpec (changeOnly tempPos freqEqual : Bool) (d0 d1 : Nat) : Nat × Nat :=
+  if !changeOnly && freqEqual && ((d0, d1) == (1, 0) || (d0, d1) == (0, 1)) then
+    (if tempPos then 1 else 0, if (d0, d1) == (0, 1) then 1 else 0)
+  else (0, 0)
+
+def initialLookup (co tp fe : Bool) (d0 d1 : Nat) : Option (Nat × Nat × Nat) :=
+  (correlation_initial_table.find? (fun r => r.1 == co && r.2.1 == tp && r.2.2.1 == fe &&
+      r.2.2.2.1 == d0 && r.2.2.2.2.1 == d1)).map (fun r => r.2.2.2.2.2)
+
+/-- The initial bath contribution of `correlation()` / `occupation()`, evaluated from the source for
+    every combination of its conditions.  For all 32 combinations of (change_only, T > 0,
+    freq_1 == freq_2, dagg): the vacuum `+1` of ⟨a a†⟩ is added exactly for `dagg = (0,1)` at equal
+    frequencies with `change_only = False` — irrespective of the temperature; the thermal
+    occupation `n_th` is added exactly for `dagg ∈ {(1,0), (0,1)}` at equal frequencies with
+    `change_only = False` and `T > 0` (so it is 0 at `T = 0`, where the expression would divide
+    by zero); nothing else is ever added; the interaction-picture phase multiplies the sum
+    including these terms.  `occupation()` adds `n_th` exactly when `change_only = False`, `T > 0`. -/
+theorem initial_contribution :
+    (∀ co tp fe : Bool, ∀ d0 ∈ [0, 1], ∀ d1 ∈ [0, 1],
+      initialLookup co tp fe d0 d1 =
+        some ((initialSpec co tp fe d0 d1).1, (initialSpec co tp fe d0 d1).2, 0)) ∧
+    correlation_initial_table.length = 32 ∧
+    (∀ tp : Bool, initialLookup false tp true 0 1 = some (if tp then 1 else 0, 1, 0)) ∧
+    (∀ tp : Bool, initialLookup false tp true 1 0 = some (if tp then 1 else 0, 0, 0)) ∧
+    occupation_initial_table =
+      [(false, false, 0, 0), (false, true, 1, 0), (true, false, 0, 0), (true, true, 0, 0)] ∧
+    correlation_phase =
+      "np.exp(1j * ((2 * dagg[0] - 1) * freq_2 * time_2 + (2 * dagg[1] - 1) * freq_1 * time_1))" := by
+  decide
+
 /-- these four are all the integer conversions in `TwoTimeBathCorrelations` -/
 theorem bath_int_conversions_listed :
     bath_int_conversions = ["int(np.round(final_time / dt))", "int(np.round(time_1 / dt))",
